@@ -53,6 +53,9 @@ def corpus():
     out.append(mk([("x", 1, [T(-1, [V(0), P(0, -1)]), T(1, [P(1)]), T(1, [P(2)])], ["0"])], ["tau", "E_L", "I_e"]))   # x' = -x/tau + E_L + I_e
     out.append(mk([("x", 1, [T(-1, [V(0), P(0, -1)]), T(1, [P(1)])], ["0"])], ["tau", "E_L"]))        # x' = a x + b
     out.append(mk([("x", 1, [T(-1, [V(0), P(0, -1)]), T(1, [V(1)])], ["0"]), ("y", 1, [T(-2, [V(1)]), T(1, [])], ["0"])], ["tau"]))  # depends on offset eq
+    out.append(mk([("x", 1, [T(-1, [V(0), P(0, -1)]), T(1, [P(1)]), T(1, [V(1)])], ["0"]), ("y", 1, [T(-2, [V(1)])], ["1"])], ["tau", "E_L"]))   # offset equation that reads another variable
+    out.append(mk([("x", 1, [T(-1, [V(0)]), T(1, []), T(1, [V(2)])], ["0"]), ("y", 1, [T(-1, [V(1)])], ["1"]), ("z", 1, [T(Fraction(-1, 2), [V(2)]), T(1, [V(1)])], ["2"])], []))   # offset + chain z <- y
+    out.append(mk([("x", 1, [T(-2, [V(0)]), T(3, [P(0)]), T(1, [V(1)]), T(Fraction(1, 2), [V(2)])], ["0"]), ("y", 1, [T(-1, [V(1)])], ["1"]), ("z", 1, [T(-3, [V(2)])], ["1"])], ["a"]))   # offset + two inputs
     return out
 
 
@@ -65,7 +68,7 @@ def gen_linear(rng):
                 return s
     m = rng.randint(2, 4)
     nparams = rng.choice([0, 1, 2, m])
-    names = rng.sample(U.VAR_NAMES, m)
+    names = U.pick_names(rng, m)
     params = rng.sample(U.PAR_NAMES, nparams)
     entries = []
     for i in range(m):
@@ -77,7 +80,7 @@ def gen_linear(rng):
         if i > 0:
             src = i - 1 if kind == "chain" else 0
             terms.append(T(rng.choice([1, 2, Fraction(1, 2)]), [[["v", src], 1]]))
-        if i == 0 and rng.random() < 0.3:
+        if (i == 0 and rng.random() < 0.3) or (i > 0 and rng.random() < 0.25):     # constant offsets, also on equations that read other variables
             terms.append(T(rng.choice([1, 2]), ([[["p", rng.randrange(nparams)], 1]] if nparams and rng.random() < 0.5 else [])))
             if rng.random() < 0.5:
                 terms.append(T(rng.choice([3, Fraction(1, 2), -1]), ([[["p", rng.randrange(nparams)], 2]] if nparams and rng.random() < 0.6 else [])))
@@ -99,17 +102,61 @@ def run(ctx):
         if len(s["entries"]) in (2, 3) and rng.random() < 0.5:
             allp = list(itertools.permutations(range(len(s["entries"]))))[1:]
             systems.append(c03.permute_system(s, rng.choice(allp)))
+    # mixed systems: a nonlinear (numerically solved) variable that READS the linear part is appended (or put in front by a
+    # permutation); the analytical solver of the linear part must be unaffected, whatever the flags
+    import copy as _copy
+    for s in list(systems):
+        if rng.random() < (0.3 if quick else 0.25):
+            s2 = _copy.deepcopy(s)
+            offs_, n_ = U.offsets(s2)
+            used = [e["name"] for e in s2["entries"]]
+            nm_ = rng.choice([v for v in U.VAR_NAMES + ["V", "V_d", "g_"] if v not in used])
+            terms_ = [T(rng.choice([-1, Fraction(-1, 2)]), [[["v", n_], rng.choice([2, 3])]]), T(rng.choice([1, 2]), [[["v", rng.randrange(n_)], 1]])]
+            s2["entries"].append({"name": nm_, "order": 1, "kind": "ode", "rhs": U.merge_terms(terms_), "ivs": ["1"], "single_iv": True, "gen_kind": "numeric_reader"})
+            if rng.random() < 0.5:
+                m_ = len(s2["entries"])
+                s2 = c03.permute_system(s2, tuple([m_ - 1] + list(range(m_ - 1))))
+            s2["mixed"] = True
+            systems.append(s2)
     tasks, meta = [], []
     for k, s in enumerate(systems):
         pt = U.gen_point(s, rng)
         ind = U.render(s, style=rng.choice([0, 1, 2]), rng=random.Random(k))
+        flags_ = {}
+        q_ = rng.random()
+        if q_ < 0.2 or (s.get("mixed") and q_ < 0.6):
+            flags_["preserve_expressions"] = True if rng.random() < 0.5 else [e["name"] for e in s["entries"] if e["order"] == 1 and rng.random() < 0.7]
+        if rng.random() < 0.15:
+            flags_["simplify_expression"] = rng.choice(["sympy.simplify(expr)", "sympy.factor(expr)", "expr"])
         if rng.random() < 0.3:      # a non-default name for the step size (the workers analyse many systems per interpreter, under different names)
             ind.setdefault("options", {})["output_timestep_symbol"] = rng.choice(["dt", "Delta", "h_", "__dt"])
-        tasks.append({"fn": "sysimpl.run_c01", "indict": ind, "point": c02.point_names(s, pt), "pseed": rng.randint(1, 10 ** 6), "api_timeout": 30, "timeout": 150})
+        tasks.append({"fn": "sysimpl.run_c01", "indict": ind, "flags": flags_, "point": c02.point_names(s, pt), "pseed": rng.randint(1, 10 ** 6), "api_timeout": 30, "timeout": 150})
         meta.append((s, pt))
-    res = C.run_tasks(tasks, timeout=150)
+    # the same system analysed several times in ONE interpreter under different names for the step size (and once more
+    # under the first name): deterministic counterpart of the workers' sharing
+    seq_tasks, seq_meta = [], []
+    import copy
+    for k in rng.sample(range(len(systems)), min(len(systems), 10 if quick else 60)):
+        s, pt = meta[k]
+        names_ = rng.sample(["__h", "dt", "Delta", "h_"], 3)
+        subs_ = []
+        for nm_ in names_ + [names_[0]]:
+            ind_ = copy.deepcopy(tasks[k]["indict"])
+            ind_.setdefault("options", {})["output_timestep_symbol"] = nm_
+            subs_.append(dict(tasks[k], indict=ind_))
+        seq_tasks.append({"fn": "sysimpl.run_c01_seq", "subs": subs_, "timeout": 600, "fresh": True})
+        seq_meta.append((s, pt))
+    allres = C.run_tasks(tasks + seq_tasks, timeout=600)
+    res = allres[:len(tasks)]
+    for (s, pt), t_, r_ in zip(seq_meta, seq_tasks, allres[len(tasks):]):
+        if r_.get("outcome") != "Ok":
+            continue
+        for pos_, (sub_, rr_) in enumerate(zip(t_["subs"], r_["results"])):
+            meta.append((s, pt))
+            tasks.append(dict(sub_, sequence=[x_["indict"]["options"]["output_timestep_symbol"] for x_ in t_["subs"][:pos_]]))
+            res.append(rr_)
     coq, info, probe_failures, corr_errors = [], [], [], []
-    dist = {"api": {}, "n_analytic": {}, "with_offset": 0, "blocks_gt1": 0, "propgen_cases": 0, "probe": {"ok": 0, "skipped": 0, "error": 0}, "kinds": {}}
+    dist = {"api": {}, "n_analytic": {}, "with_offset": 0, "same_interpreter_sequences": len(seq_tasks), "blocks_gt1": 0, "propgen_cases": 0, "probe": {"ok": 0, "skipped": 0, "error": 0}, "kinds": {}}
     nontriv = set()
     samples = []
     for (s, pt), t, r in zip(meta, tasks, res):
@@ -118,6 +165,9 @@ def run(ctx):
             continue
         api = r.get("api")
         dist["api"][api] = dist["api"].get(api, 0) + 1
+        for fk_ in (t.get("flags") or {}):
+            dist.setdefault("flags", {})[fk_] = dist.setdefault("flags", {}).get(fk_, 0) + 1
+        dist["mixed_systems"] = dist.get("mixed_systems", 0) + int(bool(s.get("mixed")))
         for e in s["entries"]:
             dist["kinds"][e.get("gen_kind", "?")] = dist["kinds"].get(e.get("gen_kind", "?"), 0) + 1
         offs, n = U.offsets(s)
@@ -134,7 +184,7 @@ def run(ctx):
                 dist["inexact_float_constants"] = dist.get("inexact_float_constants", 0) + 1
                 pr = r.get("probe", {})
                 if "worst" in pr and pr["worst"] > 1e-12:
-                    probe_failures.append({"key": "update is not the exact flow: " + C.stable_hash(t["indict"]), "what": "%s | input %s" % (pr["detail"], t["indict"]["dynamics"]), "replay": {"task": t}})
+                    probe_failures.append({"key": "update is not the exact flow: " + C.stable_hash(t["indict"]), "what": "%s | input %s options %s flags %s%s" % (pr["detail"], t["indict"]["dynamics"], t["indict"].get("options"), t.get("flags"), " after analyses of the same input under step-size names %s in the same interpreter" % t["sequence"] if t.get("sequence") else ""), "replay": {"task": t}})
                 continue
             qP = []
             okk = True
@@ -167,7 +217,7 @@ def run(ctx):
                 dist["probe"]["ok"] += 1
                 if pr["worst"] > 1e-12:
                     probe_failures.append({"key": "update is not the exact flow: " + C.stable_hash(t["indict"]),
-                                           "what": "%s | input %s" % (pr["detail"], t["indict"]["dynamics"]), "replay": {"task": t}})
+                                           "what": "%s | input %s options %s flags %s%s" % (pr["detail"], t["indict"]["dynamics"], t["indict"].get("options"), t.get("flags"), " after analyses of the same input under step-size names %s in the same interpreter" % t["sequence"] if t.get("sequence") else ""), "replay": {"task": t}})
             elif "skipped" in pr:
                 dist["probe"]["skipped"] += 1
             else:
@@ -198,7 +248,18 @@ def replay(payload):
     rp = payload.get("replay") or {}
     if "task" not in rp:
         return True, "replay file names a broken obligation (no concrete input): " + str(payload.get("no_longer_checks"))[:500]
-    r = C.run_tasks([dict(rp["task"], api_timeout=120, timeout=300)], timeout=300)[0]
+    task = dict(rp["task"], api_timeout=120, timeout=300)
+    if task.get("sequence"):
+        import copy
+        subs = []
+        for nm in task["sequence"]:
+            ind = copy.deepcopy(task["indict"])
+            ind.setdefault("options", {})["output_timestep_symbol"] = nm
+            subs.append(dict(task, indict=ind))
+        r = C.run_tasks([{"fn": "sysimpl.run_c01_seq", "subs": subs + [task], "timeout": 900, "fresh": True}], timeout=900)[0]
+        r = r["results"][-1] if r.get("outcome") == "Ok" else r
+    else:
+        r = C.run_tasks([task], timeout=300)[0]
     if r.get("api") == "Assert":
         return False, "AssertionError: %s" % r.get("detail")
     pr = r.get("probe", {})
